@@ -657,10 +657,14 @@ func (index *setIndex) CheckIntegrity(ctx MutateContext, fix bool, errorSink fun
 					}
 				}
 			} else {
-				// If key has no values, delete the key
-				if err := cursor.Delete(); err != nil {
-					return err
+				// the key is not a bucket, so it can't hold any values: delete the key
+				if fix {
+					if err := cursor.Delete(); err != nil {
+						return err
+					}
 				}
+				errorSink(errors.Errorf("for index on %s.%s, index value %s is not a bucket",
+					index.symbol.GetStore().GetEntityType(), index.GetSymbol().GetName(), string(key)), fix)
 			}
 		}
 
@@ -681,10 +685,18 @@ func (index *setIndex) CheckIntegrity(ctx MutateContext, fix bool, errorSink fun
 		valuesCursor := setBucket.Cursor()
 		for val, _ := valuesCursor.First(); val != nil; val, _ = valuesCursor.Next() {
 			_, value := GetTypeAndValue(val)
-			idxBucket := index.getIndexBucket(tx, value)
 			key := PrependFieldType(TypeString, id)
-			if !idxBucket.IsKeyPresent(key) {
+			// look the index key up without creating it: check-only mode must not write
+			var idxBucket *TypedBucket
+			if indexBaseBucket := Path(tx, index.indexPath...); indexBaseBucket != nil {
+				idxBucket = indexBaseBucket.GetBucket(string(value))
+			}
+			if idxBucket == nil || !idxBucket.IsKeyPresent(key) {
 				if fix {
+					idxBucket = index.getIndexBucket(tx, value)
+					if idxBucket.HasError() {
+						return idxBucket.GetError()
+					}
 					if err := idxBucket.Put(key, nil); err != nil {
 						return err
 					}
